@@ -4,8 +4,8 @@
    program over the primitives does.  Per-primitive agreement of DenseMatrix / ndarray / nalgebra
    with C03's model is NOT a theorem (ndarray and nalgebra are third-party code): it is established
    per run by the correspondence check.  See meta/C20.json. *)
-From Coq Require Import List Arith Bool Lia.
-From SC Require Import C20.Model C20.Proofs.
+From Coq Require Import List Arith Bool Lia ZArith.
+From SC Require Import Base.Num C03.Model C03.ProofsBase C20.Model C20.Proofs C20.ProofsLayout C20.ProofsDerived.
 Import ListNotations.
 
 Theorem C20_backend_simulation :
@@ -51,3 +51,142 @@ Proof.
   - intros [] ms1 ms2 ss H. destruct H as [|m1 m2 l1 l2 Hm H]; [exact I|]. destruct H; [|exact I].
     cbn. unfold Rm in *. cbn in *. subst m1. rewrite ex_sum_rev, rev_involutive. reflexivity.
 Qed.
+
+(* ---------- independence through ONE model ----------
+   The correspondence check compares every backend with C03's model, never two backends with each
+   other.  This is the step from there to "the backends agree with each other": if I1 and I2 each
+   agree with a model implementation Im primitive by primitive (abstractions a1, a2), every program run
+   on both from states with the same abstraction ends in the same way: both panic, or both return with
+   the same scalars and matrices of the same abstraction. *)
+Theorem C20_backend_independence_via_model :
+  forall (S opM opS : Type) (I1 I2 Im : impl S opM opS)
+         (a1 : carrier S opM opS I1 -> carrier S opM opS Im) (a2 : carrier S opM opS I2 -> carrier S opM opS Im),
+    agrees_with_model S opM opS Im I1 a1 -> agrees_with_model S opM opS Im I2 a2 ->
+    forall (p : prog S opM opS) st1 st2,
+      same_obs S opM opS I1 I2 Im a1 a2 st1 st2 ->
+      rel_opt (same_obs S opM opS I1 I2 Im a1 a2) (run S opM opS I1 p st1) (run S opM opS I2 p st2).
+Proof. exact independence. Qed.
+
+(* hypotheses satisfiable: the two list "backends" above against the model "list as is" *)
+Example C20_independence_instance :
+  agrees_with_model nat unit unit ex_I1 ex_I1 (fun l => l) /\
+  agrees_with_model nat unit unit ex_I1 ex_I2 (@rev nat).
+Proof.
+  split; split; intros [] ms1 ms2 ss H; (destruct H as [|m1 m2 l1 l2 Hm H]; [exact I|]); (destruct H; [|exact I]);
+    cbn; unfold Rm in *; cbn in *; subst m2.
+  - reflexivity.
+  - reflexivity.
+  - rewrite map_rev. reflexivity.
+  - rewrite ex_sum_rev, rev_involutive. reflexivity.
+Qed.
+
+(* ---------- layout freeness (for all shapes, strides, offsets, buffers) ---------- *)
+(* flatten defined through get is the model's to_row_vector of the abstracted matrix, and two
+   representations with the same logical view flatten alike *)
+Theorem C20_row_major_flatten_layout_free : forall (T : Type) (K : Ops T) (a b : smat),
+  sflatten K a = to_row_vector K (sabs K a) /\
+  (same_view K a b -> sflatten K a = sflatten K b) /\
+  (same_view K a b <-> sabs K a = sabs K b).
+Proof.
+  intros T K a b. split; [apply sflatten_model|]. split; [apply flatten_layout_free|].
+  split; [apply same_view_sabs | apply sabs_same_view].
+Qed.
+
+(* after a transpose that only swaps strides (no element moves): the view is the transposed view, the
+   flatten is the row-major order of the TRANSPOSED matrix (column by column of the original), and
+   transposing twice gives the original view back *)
+Theorem C20_flatten_after_transpose : forall (T : Type) (K : Ops T) (m : smat),
+  (forall r c, sget K (stranspose m) r c = sget K m c r) /\
+  sabs K (stranspose m) = transpose K (sabs K m) /\
+  sflatten K (stranspose m) = to_row_vector K (transpose K (sabs K m)) /\
+  sflatten K (stranspose m) = flat_map (fun c => map (fun r => sget K m r c) (seq 0 (sn m))) (seq 0 (sp m)) /\
+  same_view K (stranspose (stranspose m)) m.
+Proof.
+  intros T K m. split; [apply sget_transpose|]. split; [apply sabs_transpose|].
+  destruct (flatten_after_transpose K m) as [H1 H2]. split; [exact H1|]. split; [exact H2|].
+  apply transpose_twice_view.
+Qed.
+
+(* reshape through get: accepted exactly when the sizes match, preserves the logical row-major order,
+   is the model's reshape of the abstraction, and is layout free (same panic behaviour, same view) *)
+Theorem C20_reshape_layout_free : forall (T : Type) (K : Ops T) (m : smat) (n p : nat),
+  (sn m * sp m = n * p ->
+     exists m', sreshape K m n p = Some m' /\ sn m' = n /\ sp m' = p /\
+                sflatten K m' = sflatten K m /\ reshape K (sabs K m) n p = Some (sabs K m')) /\
+  (sn m * sp m <> n * p -> sreshape K m n p = None /\ reshape K (sabs K m) n p = None) /\
+  (forall b, same_view K m b ->
+     match sreshape K m n p, sreshape K b n p with
+     | Some x, Some y => same_view K x y
+     | None, None => True
+     | _, _ => False
+     end).
+Proof.
+  intros T K m n p. split; [apply reshape_layout_free|]. split; [apply reshape_none_on_mismatch|].
+  intros b. apply reshape_same_view.
+Qed.
+
+(* memory-order flattening (the defect D12) is right only on the standard layout *)
+Theorem C20_memory_order_only_on_standard_layout : forall (T : Type) (K : Ops T) n p off (buf : list T),
+  off + n * p <= length buf ->
+  sflatten_memory (mkS n p off p 1 buf) = sflatten K (mkS n p off p 1 buf).
+Proof. intros T K. exact (memory_order_on_standard_layout K). Qed.
+
+(* ... and wrong after a transpose: a 2x2 witness over nat-valued entries *)
+Definition natK : Ops nat :=
+  mkOps nat 0 1 Nat.add Nat.sub Nat.mul Nat.div (fun x => x) (fun x => x) (fun x => x)
+        (fun x => x) (fun x => x) Nat.ltb Nat.leb Nat.eqb Z.to_nat.
+Example C20_memory_order_wrong_after_transpose :
+  let m := mkS 2 2 0 2 1 [1; 2; 3; 4] in
+  sflatten natK (stranspose m) = [1; 3; 2; 4] /\ sflatten_memory (stranspose m) = [1; 2; 3; 4] /\
+  same_view natK (mkS 2 2 0 1 2 [1; 3; 2; 4]) m /\ sflatten_memory (mkS 2 2 0 1 2 [1; 3; 2; 4]) <> sflatten natK m.
+Proof.
+  split; [reflexivity|]. split; [reflexivity|]. split; [|cbn; discriminate]. repeat split.
+  intros r c Hr Hc. cbn in Hr, Hc. destruct r as [|[|r]]; destruct c as [|[|c]]; try reflexivity; lia.
+Qed.
+
+(* ---------- derived (default) methods are determined by the primitives ---------- *)
+(* statistics written against shape / get return the model's value on the logical view, on EVERY backend *)
+Theorem C20_default_stats_determined_by_view : forall (T : Type) (K : Ops T) (B : backend) (m : car B) axis0,
+  d_mean K B m axis0 = mean K (bview B m) axis0 /\
+  d_var K B m axis0 = var K (bview B m) axis0 /\
+  d_std K B m axis0 = std K (bview B m) axis0.
+Proof. intros. split; [apply d_mean_model|]. split; [apply d_var_model | apply d_std_model]. Qed.
+
+(* the in-place default loops (binarize_mut, scale_mut) on a backend whose get / set / shape satisfy
+   the three `set` laws return the model's matrix on the logical view *)
+Theorem C20_default_loops_determined_by_view : forall (T : Type) (K : Ops T) (B : backend), lawful B ->
+  forall (m : car B) t mean_ std_ axis0,
+    bview B (d_binarize K B m t) = binarize K (bview B m) t /\
+    (d_nlines B m axis0 <= length mean_ -> d_nlines B m axis0 <= length std_ ->
+     scale K (bview B m) mean_ std_ axis0 = Some (bview B (d_scale K B m mean_ std_ axis0))).
+Proof. intros T K B L m t mean_ std_ axis0. split; [apply d_binarize_model; exact L | apply d_scale_model; exact L]. Qed.
+
+(* hence two backends holding matrices with the same logical view give the same derived results *)
+Theorem C20_derived_methods_backend_free : forall (T : Type) (K : Ops T) (B1 B2 : backend),
+  lawful B1 -> lawful B2 ->
+  forall (m1 : car B1) (m2 : car B2) t mean_ std_ axis0, bview B1 m1 = bview B2 m2 ->
+    d_mean K B1 m1 axis0 = d_mean K B2 m2 axis0 /\ d_var K B1 m1 axis0 = d_var K B2 m2 axis0 /\
+    d_std K B1 m1 axis0 = d_std K B2 m2 axis0 /\
+    bview B1 (d_binarize K B1 m1 t) = bview B2 (d_binarize K B2 m2 t) /\
+    (d_nlines B1 m1 axis0 <= length mean_ -> d_nlines B1 m1 axis0 <= length std_ ->
+     bview B1 (d_scale K B1 m1 mean_ std_ axis0) = bview B2 (d_scale K B2 m2 mean_ std_ axis0)).
+Proof.
+  intros T K B1 B2 L1 L2 m1 m2 t mean_ std_ axis0 H.
+  destruct (stats_backend_free K B1 B2 m1 m2 axis0 H) as (A & B & C).
+  destruct (loops_backend_free K B1 B2 L1 L2 m1 m2 t mean_ std_ axis0 H) as (D & E).
+  repeat split; assumption.
+Qed.
+
+(* the visiting order of a cell loop is irrelevant as long as every cell is written exactly once
+   (stats.rs walks column by column for axis 0, row by row otherwise) *)
+Theorem C20_cell_loop_order_irrelevant : forall (T : Type) (K : Ops T) (B : @backend T), lawful B ->
+  forall h cs1 cs2 (m : car B),
+    full_order (brows B m) (bcols B m) cs1 -> full_order (brows B m) (bcols B m) cs2 ->
+    bview B (cell_loop B h cs1 m) = bview B (cell_loop B h cs2 m).
+Proof. intros T K B L h cs1 cs2 m H1 H2. rewrite !(cell_loop_view B L) by assumption. reflexivity. Qed.
+
+(* hypotheses satisfiable: a lawful backend exists, and both loop orders are full orders *)
+Example C20_lawful_instance : forall (T : Type) (K : Ops T),
+  lawful (fun_backend (T := T)) /\ full_order 2 3 (cells 2 3) /\
+  full_order 2 3 (map (fun cr => (snd cr, fst cr)) (cells 3 2)).
+Proof. intros. split; [apply fun_backend_lawful|]. split; [apply cells_full | apply cells_swapped_full]. Qed.
